@@ -42,6 +42,9 @@ CONSTANTS
     Dedup,          \* TRUE: forkPoint hands a point to a task edge at most once (the code after the fix)
     FailCleansUp,   \* TRUE: a StartTask that fails after newFork removes the fork again (the code after the fix)
     MaxDeaths,      \* bound on tasks dying at run time
+    CacheLookup,    \* TRUE: forkPoint looks the inner maps of tm.forks up only when the (db, rp, measurement) differs
+                    \* from the previous point's (a seeded regression: a nil map remembered from before the first
+                    \* subscriber stays nil); FALSE: delivery is decided per point from the forks as they are then
     StopAtFirstError \* TRUE: forkPoint stops handing a point out at the first edge whose Collect fails (a seeded
                     \* regression: the code ignores the error of each Collect and goes on)
 
@@ -58,14 +61,18 @@ VARIABLES
     nl,             \* lifecycle calls so far
     dead,           \* executing tasks whose pipeline has failed at run time: the source node has aborted the
                     \* task's fork edge (Collect returns ErrAborted); nobody has stopped the task yet
-    died            \* ghost: tasks that ever died (out of the verdict)
+    died,           \* ghost: tasks that ever died (out of the verdict)
+    lk              \* only with CacheLookup (a seeded regression): [created : fork keys whose inner map exists
+                    \* (newFork creates it for the first subscriber, delFork never removes it),
+                    \* cache : the lookup the forking goroutine remembers from the previous point]
 
-vars == <<def, executing, forks, taskToForkKeys, ingest, taskEdge, delivered, written, status, nl, dead, died>>
-dvars == <<dead, died>>
+vars == <<def, executing, forks, taskToForkKeys, ingest, taskEdge, delivered, written, status, nl, dead, died, lk>>
+dvars == <<dead, died, lk>>
 
 T == DOMAIN def
 Range(s) == { s[i] : i \in DOMAIN s }
 Key(db, rp, m) == [db |-> db, rp |-> rp, meas |-> m]
+NoLookup == [created |-> {}, cache |-> [key |-> Key("", "", ""), m |-> FALSE, a |-> FALSE]]
 
 (* forkKeys(dbrps, Task.Measurements()): dbrp-major, one entry per from() node *)
 (* (duplicates are kept, exactly as the slice in the code).                    *)
@@ -74,12 +81,19 @@ ForkKeysOf(d) ==
     IN  [i \in 1..(Len(d.dbrps) * nm) |->
             Key(d.dbrps[((i - 1) \div nm) + 1].db, d.dbrps[((i - 1) \div nm) + 1].rp, d.froms[((i - 1) % nm) + 1].meas)]
 
-(* FromNode.matches; pred is the tag value required by where(lambda: "tag" == 'v') *)
+(* FromNode.matches.  pred "v": where(lambda: "tag" == 'v') - a point without the  *)
+(* tag (tag = "") is not selected; pred "?v": where(lambda: !isPresent("tag") OR   *)
+(* "tag" == 'v').  Selection is a function of the point alone.                      *)
+PredOK(pred, tag) ==
+    CASE pred = ""   -> TRUE
+      [] pred = "?a" -> tag \in {"", "a"}
+      [] pred = "?b" -> tag \in {"", "b"}
+      [] OTHER       -> tag = pred
 FromMatch(f, p) ==
     /\ f.db = "" \/ p.db = f.db
     /\ f.rp = "" \/ p.rp = f.rp
     /\ f.meas = "" \/ p.meas = f.meas
-    /\ f.pred = "" \/ p.tag = f.pred
+    /\ PredOK(f.pred, p.tag)
 
 Declares(d, p) == \E i \in DOMAIN d.dbrps : d.dbrps[i].db = p.db /\ d.dbrps[i].rp = p.rp
 
@@ -96,7 +110,7 @@ Init ==
     /\ taskEdge = [t \in TaskIds |-> <<>>]
     /\ delivered = [t \in TaskIds |-> EmptyDelivered(def[t])]
     /\ written = <<>> /\ status = <<>> /\ nl = 0
-    /\ dead = {} /\ died = {}
+    /\ dead = {} /\ died = {} /\ lk = NoLookup
 
 (* ---------------- ingest ---------------- *)
 MkPoint(b, i, s) == [seq |-> s, db |-> b.db, rp |-> IF b.rp = "" THEN DefaultRP ELSE b.rp,
@@ -116,24 +130,36 @@ WriteBatchR(b, racing) ==
 WriteBatch(b) == WriteBatchR(b, {})
 
 (* ---------------- forkPoint ---------------- *)
-ForkCount(fk, t, p) ==
-    LET a == IF <<Key(p.db, p.rp, p.meas), t>> \in fk THEN 1 ELSE 0
-        b == IF <<Key(p.db, p.rp, ""), t>> \in fk THEN 1 ELSE 0
+(* mOK/aOK: the inner map of the measurement key / of the empty-measurement key is *)
+(* seen by this forkPoint (always, unless CacheLookup remembered a nil map)         *)
+ForkCountC(fk, t, p, mOK, aOK) ==
+    LET a == IF mOK /\ <<Key(p.db, p.rp, p.meas), t>> \in fk THEN 1 ELSE 0
+        b == IF aOK /\ <<Key(p.db, p.rp, ""), t>> \in fk THEN 1 ELSE 0
     IN  IF Dedup /\ a + b > 1 THEN 1 ELSE a + b
+ForkCount(fk, t, p) == ForkCountC(fk, t, p, TRUE, TRUE)
+Lookup(p) ==
+    LET key == Key(p.db, p.rp, p.meas)
+    IN  IF ~CacheLookup THEN [key |-> key, m |-> TRUE, a |-> TRUE]
+        ELSE IF lk.cache.key = key THEN lk.cache
+        ELSE [key |-> key, m |-> key \in lk.created, a |-> Key(p.db, p.rp, "") \in lk.created]
+Created(d) == IF CacheLookup THEN [lk EXCEPT !.created = @ \cup Range(ForkKeysOf(d))] ELSE lk
 Rep(p, n) == [i \in 1..n |-> p]
 
 (* Collect fails on the edge of a dead task and the code goes on with the next    *)
 (* edge.  StopAtFirstError: the iteration (Go map order) ends at the first failing *)
 (* edge, so any subset of the live subscribers may miss the point.                 *)
 ForkTo(p, recv) ==
-    /\ taskEdge' = [t \in T |-> IF t \in recv THEN taskEdge[t] \o Rep(p, ForkCount(forks, t, p)) ELSE taskEdge[t]]
+    /\ taskEdge' = [t \in T |-> IF t \in recv
+                                 THEN taskEdge[t] \o Rep(p, ForkCountC(forks, t, p, Lookup(p).m, Lookup(p).a))
+                                 ELSE taskEdge[t]]
     /\ ingest' = Tail(ingest)
-    /\ UNCHANGED <<def, executing, forks, taskToForkKeys, delivered, written, status, nl, dvars>>
+    /\ lk' = IF CacheLookup THEN [lk EXCEPT !.cache = Lookup(p)] ELSE lk
+    /\ UNCHANGED <<def, executing, forks, taskToForkKeys, delivered, written, status, nl, dead, died>>
 Fork ==
     /\ ingest # <<>>
     /\ LET p == Head(ingest)
-           live == { t \in T \ dead : ForkCount(forks, t, p) > 0 }
-           hitsDead == \E t \in dead : ForkCount(forks, t, p) > 0
+           live == { t \in T \ dead : ForkCountC(forks, t, p, Lookup(p).m, Lookup(p).a) > 0 }
+           hitsDead == \E t \in dead : ForkCountC(forks, t, p, Lookup(p).m, Lookup(p).a) > 0
        IN  IF StopAtFirstError /\ hitsDead
            THEN \E recv \in SUBSET live : ForkTo(p, recv)
            ELSE ForkTo(p, live)
@@ -175,7 +201,8 @@ StartTask(t) ==
     /\ taskEdge' = [taskEdge EXCEPT ![t] = <<>>]
     /\ status' = MarkRacy(t)
     /\ nl' = nl + 1
-    /\ UNCHANGED <<def, ingest, delivered, written, dvars>>
+    /\ lk' = Created(def[t])
+    /\ UNCHANGED <<def, ingest, delivered, written, dead, died>>
 
 (* StartTask returning an error AFTER newFork (the task's snapshot cannot be      *)
 (* loaded): the task is not executing.  Code as found: the fork stays registered *)
@@ -188,7 +215,8 @@ StartTaskFail(t) ==
        ELSE /\ taskToForkKeys' = [taskToForkKeys EXCEPT ![t] = @ \o ForkKeysOf(def[t])]
             /\ forks' = forks \cup { <<k, t>> : k \in Range(ForkKeysOf(def[t])) }
             /\ taskEdge' = [taskEdge EXCEPT ![t] = <<>>]
-    /\ UNCHANGED <<def, executing, ingest, delivered, written, status, dvars>>
+    /\ lk' = Created(def[t])
+    /\ UNCHANGED <<def, executing, ingest, delivered, written, status, dead, died>>
 
 (* A node of t fails at run time; the failure travels up the pipeline (each node  *)
 (* aborts its parent edges) until the source node aborts the fork edge: buffered  *)
@@ -197,7 +225,7 @@ Die(t) ==
     /\ t \in executing \ dead /\ Cardinality(died) < MaxDeaths
     /\ dead' = dead \cup {t} /\ died' = died \cup {t}
     /\ taskEdge' = [taskEdge EXCEPT ![t] = <<>>]
-    /\ UNCHANGED <<def, executing, forks, taskToForkKeys, ingest, delivered, written, status, nl>>
+    /\ UNCHANGED <<def, executing, forks, taskToForkKeys, ingest, delivered, written, status, nl, lk>>
 
 (* stopTask: a no-op (still returning nil) when t is not executing *)
 DoStop(t) ==
@@ -211,7 +239,7 @@ DoStop(t) ==
             /\ status' = MarkRacy(t)
             /\ dead' = dead \ {t}
        ELSE UNCHANGED <<executing, forks, taskToForkKeys, delivered, taskEdge, status, dead>>
-    /\ UNCHANGED <<def, ingest, written, died>>
+    /\ UNCHANGED <<def, ingest, written, died, lk>>
 StopTask(t) == DoStop(t)
 DeleteTask(t) == DoStop(t)      \* stopTask + delete hooks (none for these pipelines)
 
@@ -247,7 +275,7 @@ ExactlyOnce ==
         IN  /\ \A i \in 1..(Len(q) - 1) : \A j \in (i + 1)..Len(q) : q[i] # q[j]
             /\ \A s \in DOMAIN written :
                   (status[s][t] = "must" /\ t \notin died /\ Selected(t, k, written[s]) /\ Settled(s, t))
-                      => \E i \in DOMAIN q : q[i] = s
+                      => s \in Range(q)
 
 (* nothing reaches a task that did not declare the dbrp, a from() node that    *)
 (* does not select it, or a task that was not enabled                          *)
